@@ -28,7 +28,7 @@ claim('C14', 'proof', K1 + '; ' + K2 + '; ' + BD,
       'descriptor decoding per note type relies on struct_parse = Sem(layout) (K2); property-list elements and the two container views (NoteSection / NoteSegment.iter_notes, any p_align) are not under K1 contract: covered by the bounded note differential (images describing one extent as section and as segment, GNU and core type tables); StabSection.iter_stabs is under contract; Sem of construct node kinds assumed (DESIGN 2.8)')
 claim('C16', 'proof', K1 + '; ' + K2 + '; ' + BD,
       'ULEB128._parse and SLEB128._parse proved equal to the standard value (sign extension for any length) and length for every byte string (loop invariant, variant, raises-iff-truncated); UBInt24/ULInt24, the initial-length adapter (32/64-bit escape, reserved values), roundup proved; struct_parse is executed from its real body at every call site; every fixed-width primitive factory of ELFStructs/DWARFStructs and the initial-length struct K2-checked in every configuration',
-      'a bounded differential over encodings of 1..20 groups (minimal and padded) keeps deciding when a LEB128 loop is rewritten in a form the engine rejects; struct.Struct.unpack assumed to be the two\'s-complement reader of standard sizes; construct\'s FormatField/CString/PrefixedArray node semantics assumed (Sem, DESIGN 2.8)')
+      'bounded differentials over LEB128 encodings of 1..20 groups (minimal and padded) and over the fixed-width integer factories of both structs classes (both byte orders and signednesses, boundary patterns) keep deciding when a primitive is rewritten in a form the engine rejects; struct.Struct.unpack assumed to be the two\'s-complement reader of standard sizes; construct\'s FormatField/CString/PrefixedArray node semantics assumed (Sem, DESIGN 2.8)')
 
 claim('C01', 'proof', K1 + '; ' + K2 + '; ' + BD,
       'Ehdr/Shdr/Phdr layouts K2-checked over every (class, byte order, machine, OS ABI, file type); table addressing with e_shentsize/e_phentsize, extended-numbering escapes, header fetch, type->class dispatch (all 18 kinds), segment dispatch, enumeration generators proved against their specifications for all inputs',
@@ -43,7 +43,7 @@ claim('C08', 'proof', K1 + '; ' + K2 + '; ' + GR + '; ' + BD,
       'Elf_Rel/Rela/Relr incl. MIPS64 layout and r_info lambdas K2 (lambdas proved by z3); relocation table addressing; RELR expansion proved by step refinement (anchor/bitmap/base advance); every supported (machine, type) recipe: width, addend source, and calc function proved equal to the psABI formula for all operands; applying one relocation (RelocationHandler._do_apply_relocation, postconditions generated from the psABI oracle with registry type numbers): for every supported (machine, flavour, type) the field at r_offset holds the formula of the symbol value, addend, place and previous field value wrapped to the field width and every other byte of the section keeps its value; an out-of-range symbol index, the wrong flavour for the machine and a type outside the supported set never return; the architecture-name dispatch (get_machine_arch) is proved for the nine machines with recipe tables',
       'the write of the relocated field is an ASSUMED contract of construct\'s builder (exactly the field\'s bytes at the position, every other byte kept, the written field parses back to the value); find_relocations_for_section / apply_section_relocations (the loop over a table) and the loading path in ELFFile are not under K1 contract: covered by the bounded differential (objects written by an independent ELF writer for every supported (machine, type), result compared byte for byte with the ABI formula); RELR expansion also has a bounded backstop differential; MIPS RELA in-place addend is a recorded known finding (ground recipe obligation and the two K1 value clauses)')
 claim('C09', 'proof', K1 + '; ' + K2 + '; ' + BD,
-      'Elf_Dyn K2 incl. machine/OS specific tag tables; raw tag addressing, walk to DT_NULL (with termination variant), table pointer lookup (first entry bearing the tag) mapped through loadable segments, string tags through the dynamic string table, tag count; GNU/SysV symbol count',
+      'Elf_Dyn K2 incl. machine/OS specific tag tables and the precedence of the specific name when a value has two names; raw tag addressing, walk to DT_NULL (with termination variant), table pointer lookup (first entry bearing the tag) mapped through loadable segments, string tags through the dynamic string table, tag count; GNU/SysV symbol count',
       '_get_stringtable assumed; the public iter_tags is proved to wrap exactly the raw walk; get_relocation_tables, DynamicSegment.num_symbols fallback path / get_symbol / constructors are not under K1 contract: covered by the bounded differential of section-less images (independent ELF writer: PT_LOAD + PT_DYNAMIC, string/symbol/hash/REL/RELA/JMPREL tables; lookup by name incl. several symbols of one name, on fresh and used objects)')
 claim('C13', 'proof', K1 + '; ' + K2 + '; ' + BD,
       'aranges set parsing (alignment, tuple walk to the (0,0) terminator, appended entries), bisect lookup under disjointness, unit cache representation invariant with RI-preserving interference at yields, offset-exact and containing lookups; headers K2',
